@@ -35,8 +35,10 @@ def concatenate(arrays, axis=0, compressed_axes=None):
     ptr_len = arrays[0].indptr.shape[0]
     nnz = arrays[0].nnz
     total_nnz = sum(int(arr.nnz) for arr in arrays)
-    if not can_store(indptr.dtype, total_nnz):
-        indptr = indptr.astype(np.min_scalar_type(total_nnz))
+    # indptr's dtype is also used for row numbers when the array is uncompressed
+    needed = max(total_nnz, indptr.shape[0] - 1)
+    if not can_store(indptr.dtype, needed):
+        indptr = indptr.astype(np.min_scalar_type(needed))
     for i in range(1, len(arrays)):
         indptr[ptr_len:] += nnz
         nnz = arrays[i].nnz
@@ -82,8 +84,10 @@ def stack(arrays, axis=0, compressed_axes=None):
     ptr_len = arrays[0].indptr.shape[0]
     nnz = arrays[0].nnz
     total_nnz = sum(int(arr.nnz) for arr in arrays)
-    if not can_store(indptr.dtype, total_nnz):
-        indptr = indptr.astype(np.min_scalar_type(total_nnz))
+    # indptr's dtype is also used for row numbers when the array is uncompressed
+    needed = max(total_nnz, indptr.shape[0] - 1)
+    if not can_store(indptr.dtype, needed):
+        indptr = indptr.astype(np.min_scalar_type(needed))
     for i in range(1, len(arrays)):
         indptr[ptr_len:] += nnz
         nnz = arrays[i].nnz
